@@ -531,7 +531,50 @@ func ExtraDocs() []string {
 	out = append(append(append(out, CaseKeyDocs()...), EscapedKeyDocs()...), AffixDocs()...)
 	out = append(append(out, DimDocs()...), BBoxDocs()...)
 	out = append(out, TypeNameDocs()...)
-	return append(out, CircleUnitDocs()...)
+	out = append(out, CircleUnitDocs()...)
+	return append(out, BrokenMemberDocs()...)
+}
+
+// BrokenMemberDocs: collections of 255 .. 1000 members of which two, three or
+// eight are not acceptable (an ordinate missing, an unknown type, null), at
+// the ends and spread evenly: the whole document has to be rejected, however
+// the members are divided up for processing.
+func BrokenMemberDocs() []string {
+	var out []string
+	bad := []string{`{"type":"Feature","geometry":{"type":"Point","coordinates":[7]},"properties":{}}`, `{"type":"Feature","geometry":{"type":"Pt","coordinates":[7,8]},"properties":{}}`, `{"type":"Feature","geometry":null,"properties":{}}`, `null`}
+	for _, n := range []int{255, 256, 257, 300, 1000} {
+		for _, k := range []int{2, 3, 8} {
+			for bi, b := range bad {
+				for _, typ := range []string{"FeatureCollection", "GeometryCollection"} {
+					var sb strings.Builder
+					broken := map[int]bool{}
+					for j := 0; j < k; j++ {
+						broken[j*(n-1)/(k-1)] = true // first, last and evenly in between
+					}
+					if typ == "FeatureCollection" {
+						sb.WriteString(`{"type":"FeatureCollection","features":[`)
+					} else {
+						sb.WriteString(`{"type":"GeometryCollection","geometries":[`)
+					}
+					for i := 0; i < n; i++ {
+						if i > 0 {
+							sb.WriteByte(',')
+						}
+						if broken[i] {
+							sb.WriteString(b)
+						} else {
+							fmt.Fprintf(&sb, `{"type":"Feature","geometry":{"type":"Point","coordinates":[%d,%d]},"properties":{"i":%d}}`, i%170, i%80, i)
+						}
+					}
+					sb.WriteString(`]}`)
+					if bi < 3 || n <= 257 {
+						out = append(out, sb.String())
+					}
+				}
+			}
+		}
+	}
+	return out
 }
 
 // CircleUnitDocs: Features in the Circle convention with every kind of
